@@ -61,8 +61,7 @@ class Destroyed(Inapplicable):
         self.name = name
 
 
-class TooBig(Exception):
-    """the joint dimension outgrew what the harness can reconstruct: the program ends, inconclusive"""
+TooBig = actions.TooBig
 
 
 def _dims_by_name(s: Snapshot) -> Dict[str, int]:
@@ -164,6 +163,33 @@ def r5_zero_sum(pre: Snapshot, targets: Sequence[str]) -> bool:
     return bool(np.linalg.norm(c) < 1e-12)
 
 
+
+def contraction_slack(post: Snapshot, want: np.ndarray, want_names: Sequence[str], want_dims: Sequence[int]) -> float:
+    """The library documents (tol=1e-6 in every contract()) that a density matrix whose purity is within
+    1e-6 of one is treated as pure and replaced by its dominant eigenvector. For every block that is
+    stored as vector/label after the call while the expected state of its members is *nearly* pure
+    (deficit 1 - Tr rho^2 below 1e-5), that documented replacement moves the state by about the deficit:
+    this much extra distance is accepted. A block contracted although its deficit is >= 1e-5 gets no
+    slack and is flagged as before."""
+    from photon_weave.photon_weave import Config
+
+    if not Config().contractions:
+        return 0.0
+    slack = 0.0
+    for b in post.blocks:
+        if b.rep == "matrix":
+            continue
+        try:
+            idx = [list(want_names).index(m) for m in b.members]
+        except ValueError:
+            continue
+        red = ref.ptrace(want, list(want_dims), idx)
+        deficit = 1.0 - ref.purity(red)
+        if 1e-15 < deficit < 1e-5:
+            slack += 2.0 * deficit
+    return slack
+
+
 def kraus_ops(kseed: int, dim: int, nops: int, unitary: bool) -> List[np.ndarray]:
     rng = np.random.default_rng(int(kseed) * 17 + dim)
     if unitary or nops == 1:
@@ -171,8 +197,18 @@ def kraus_ops(kseed: int, dim: int, nops: int, unitary: bool) -> List[np.ndarray
     return ref.rand_kraus(rng, dim, nops)
 
 
-def povm_ops(pseed: int, dim: int, nops: int, projective: bool) -> List[np.ndarray]:
+def povm_ops(pseed: int, dim: int, nops: int, projective: bool, unsharp=None) -> List[np.ndarray]:
     rng = np.random.default_rng(int(pseed) * 13 + dim)
+    if unsharp is not None and dim >= 2:
+        # weak ("unsharp") number-basis measurement: M_i = sqrt(1-eta)|i><i| + sqrt(eta/(d-1)) sum_{j!=i}|j><j|,
+        # eta = 10**unsharp; complete for every eta, nearly projective for small eta
+        eta = 10.0 ** float(unsharp)
+        ops = []
+        for i in range(dim):
+            m = np.eye(dim, dtype=complex) * np.sqrt(eta / (dim - 1))
+            m[i, i] = np.sqrt(1 - eta)
+            ops.append(m)
+        return ops
     if projective:
         u = ref.rand_unitary(rng, dim)
         nops = max(1, min(nops, dim))
@@ -382,6 +418,7 @@ class Machine:
         want = ref.pad(exp, common, post_c)
         td = ref.trace_distance(got, want)
         tol = TOL_TRUNC if name in ("Displace", "Squeeze") else (TOL_EXPM if name in ("BS",) else TOL_EXACT)
+        tol += contraction_slack(post, want, pre.names, post_c)
         if td > tol:
             trg = float(np.real(np.trace(got)))
             what = "trace" if abs(trg - 1) > 1e-6 and abs(trg) > 1e-9 and ref.trace_distance(got / trg, want) <= tol else "state"
@@ -661,7 +698,7 @@ class Machine:
         a, b, common = align(pre, post, pre.names)
         wantp = ref.pad(want, pre.dims, common)
         td = ref.trace_distance(b, wantp)
-        if td > TOL_EXACT:
+        if td > TOL_EXACT + contraction_slack(post, wantp, pre.names, common):
             trg = float(np.real(np.trace(b)))
             raise Tagged(["C06"], "differs", f"apply_kraus via {entry} on {targets} ({len(ks)} operators, storage {site['storage']}/{site['reps']}): distance {td:.3e} from sum K rho K+ (trace {trg:.6f})",
                          dict(site, what="trace" if abs(trg - 1) > 1e-6 else "state"))
@@ -819,7 +856,7 @@ class Machine:
             exp, ed = ref.permute(exp, exp_dims, order)
             cd = [max(a_, b_) for a_, b_ in zip(ed, post.dims)]
             td = ref.trace_distance(ref.pad(post.rho, post.dims, cd), ref.pad(exp, ed, cd))
-            if td > TOL_EXACT:
+            if td > TOL_EXACT + contraction_slack(post, ref.pad(exp, ed, cd), post.names, cd):
                 trg = float(np.real(np.trace(post.rho)))
                 raise Tagged(["C05"], "collapse", f"after measuring {sorted(mset)} via {entry} (storage {site['storages']}/{site['reps']}, outcome {outcomes}) the joint state of {post.names} is {td:.3e} away from the projected state (trace {trg:.6f})",
                              dict(site, what="trace" if abs(trg - 1) > 1e-6 else "state"))
@@ -915,10 +952,10 @@ def _do_povm(self, st):
     D = int(np.prod(dims))
     if D > 24:
         raise Inapplicable("operator too large")
-    ms = povm_ops(st["pseed"], D, st["nops"], st.get("projective", False))
+    ms = povm_ops(st["pseed"], D, st["nops"], st.get("projective", False), st.get("unsharp"))
     jms = [jnp.array(m) for m in ms]
     site = site_of(w, pre, targets, "ce" if entry.startswith("ce") else entry, "povm",
-                   dict(ntargets=len(targets), nops=len(ms), destructive=destructive, projective=bool(st.get("projective", False)),
+                   dict(ntargets=len(targets), nops=len(ms), destructive=destructive, projective=bool(st.get("projective", False)), unsharp=st.get("unsharp") is not None,
                         spread=len({pre.where[t] for t in targets})))
     site["reps"] = "/".join(sorted({pre.block_of(t).rep for t in targets}))
     site["storages"] = "/".join(sorted({pre.block_of(t).kind for t in targets}))
@@ -1030,6 +1067,8 @@ def _do_povm(self, st):
     for label, cand in cands:
         cdm = [max(a_, b_) for a_, b_ in zip(pd, post.dims)]
         td = ref.trace_distance(ref.pad(post.rho, post.dims, cdm), ref.pad(cand, pd, cdm)) if post.names else 0.0
+        if post.names:
+            td = max(0.0, td - contraction_slack(post, ref.pad(cand, pd, cdm), post.names, cdm))
         if best is None or td < best[0]:
             best = (td, label)
     if best[0] > TOL_EXACT:
